@@ -404,6 +404,12 @@ def check(ctx):
         if out != mo: ctx.disagree(kind, [kind, p if kind != "circular" else [sorted(p[0].items()), p[1], p[2]]], out, mo)
         for sig, detail in fails:
             ctx.fail(sig, dict(kind=kind, args=p if kind != "circular" else [sorted(p[0].items()), p[1], p[2]]), detail)
+    # node ids beyond 16 bits (a namespace of 70000 nodes): a few far-apart references without any cycle, and the same with one two-cycle closed
+    # (oracle only: the model's id lists are not meant for this size)
+    for pairs in ([(30000, 100), (61457, 7296), (69998, 69999)], [(30000, 100), (61457, 7296), (69998, 69999), (100, 30000)], [(65535, 65536), (65536, 65537), (131, 65535)]):
+        out, nontriv, _, fails = wide_circular(70000, pairs)
+        ctx.record(["circular-wide", 70000, pairs], True, ["circular", "wide-ids"])
+        for sig, detail in fails: ctx.fail(sig, dict(kind="circular-wide", n=70000, pairs=pairs), detail)
     k = 40 if ctx.quick() else 200
     pick = sorted(rng.sample(range(len(reqs)), min(k, len(reqs))))
     pick = [i for i in pick if len(vlib.to_sx(reqs[i])) < 4000]
@@ -411,8 +417,17 @@ def check(ctx):
     ctx.exhaustive = True
     ctx.notes["exhaustive_scope"] = "all non-empty loop-free digraphs on <= %d labelled nodes" % N
 
+WIDE_TN = [[1, "UAReferenceType", "References"], [2, "UAReferenceType", "HierarchicalReferences"], [3, "UAReferenceType", "HasSubtype"], [4, "UAReferenceType", "Organizes"]]
+WIDE_TREFS = [[1, 2, 3], [2, 3, 3], [2, 4, 3]]
+def wide_circular(n, pairs):
+    """a namespace of n nodes (ids beyond 16 bits) with the given Organizes references among them: the case is stored as (n, pairs)"""
+    ns_of = {i: 1 for i in range(5, n)}
+    for t in WIDE_TN: ns_of[t[0]] = 0
+    return judge("circular", (ns_of, [[a, b, 4] for a, b in pairs] + WIDE_TREFS, WIDE_TN))
+
 def oracle_case(case):
     """property oracle on a stored case: list of (signature, detail)"""
+    if case.get("kind") == "circular-wide": return wide_circular(case["n"], case["pairs"])[3]
     if case.get("kind") == "hst-idcol":
         from opcua_tools import navigation as nav_
         tn, trefs = case["args"]
